@@ -187,7 +187,8 @@ def rand_type(rnd, depth, name="T"):
         return ("any",)
     if c < 0.8:
         return ("arr", rand_type(rnd, depth - 1), -1)
-    nfields = rnd.choice([1, 2, 2, 3, 4])  # an empty nested record cannot be written as a data format
+    # a nested record needs two or more members: a list format with one member is an open list (array)
+    nfields = rnd.choice([2, 2, 3, 4])
     fields = []
     for i in range(nfields):
         ft = rand_type(rnd, depth - 1)
